@@ -22,6 +22,7 @@ package persistence
 //@   names ctx, input, opts
 
 //@ func (*DynamoDBMetastore).Store
+//@   names d, ctx, keyID, created, envelope
 //@   facet C18
 //@   opt no-frame
 //@   requires d != nil && d.svc != nil && envelope != nil
